@@ -54,6 +54,12 @@ def run(ctx):
         for v in BADMAC:
             conns.append({"steps": [{"a": "pause", "n": 250 if v in ("macbit", "replay") else 0}, {"a": "feed", "c": "badmac", "v": v}]})
         conns.append({"steps": [{"a": "feed", "c": "oversize"}]})
+        # a rejected connection keeps reading and discarding however much arrives: the closing time is a time, not a byte count
+        conns.append({"steps": [{"a": "feed", "c": "badmac", "v": "macbit"}, {"a": "feed", "c": "flood"}]})
+        conns.append({"steps": [{"a": "feed", "c": "junk"}, {"a": "feed", "c": "flood"}, {"a": "feed", "c": "flood"}]})
+        # a valid handshake in pieces, the completing piece with trailing bytes (every bridge: the padding lengths vary)
+        for _ in range(3):
+            conns.append({"steps": [{"a": "feed", "c": "partial"}, {"a": "feed", "c": "partial"}, {"a": "feed", "c": "validplus"}]})
         conns.append({"steps": [{"a": "feed", "c": "validplus"}]})
         conns.append({"steps": [{"a": "fire"}]})
         conns.append({"steps": []})
